@@ -1,4 +1,5 @@
 import DyntplV.Impl
+import DyntplV.Refine.Clean
 
 /-!
 # Termination of the interpreter model: a fuel that always suffices
@@ -308,6 +309,206 @@ theorem interp_stable (reg : Registry) : ∀ f : Nat,
               cases r with
               | true => simp only [if_true]; exact ihN g ch _ hpc.1 (by omega) (by omega)
               | false => simp only [Bool.false_eq_true, if_false]; exact ihW g arg all rest _ hpa hpc.2 (by omega) (by omega)
+
+/-! ### Never `outOfFuel` -/
+
+open Clean in
+/-- The else-branch runner of a loop node in the fragment is good at a sufficient fuel. -/
+theorem else_OK (reg : Registry) (f : Nat) (child : List Node) (hp : plainSeq child = true)
+    (ihN : ∀ n s, plainNode n = true → needNode n ≤ f → SOK s → ROK (writeNode reg f n s))
+    (hf : needSeq child ≤ f) :
+    ElseOK ((loopParts child).2.map (fun e st => elseRun (elseSeq (e.map (fun n st' => writeNode reg f n st'))) (!e.isEmpty) st)) := by
+  intro g hg
+  cases he : (loopParts child).2 with
+  | none => rw [he] at hg; cases hg
+  | some e =>
+    rw [he] at hg
+    simp only [Option.map_some, Option.some.injEq] at hg
+    subst hg
+    have hne := loopParts_else_need child e he
+    have hpe := loopParts_else_plain child e he hp
+    intro st hst
+    apply elseRun_ROK _ _ _ _ hst
+    intro st' hst'
+    apply elseSeq_ROK _ _ _ hst'
+    intro r hr st'' hst''
+    obtain ⟨n, hn, rfl⟩ := List.mem_map.mp hr
+    have h1 := need_mem e n hn
+    exact ihN n st'' (plain_mem e n hn hpe) (by omega) hst''
+
+open Clean in
+/-- **Termination.** For a tree without counter loops and includes, run with a fuel of at least `need` from a
+    context that does not hold `outOfFuel`, the interpreter neither returns `outOfFuel` nor leaves it in `ctx.Err`. -/
+theorem interp_clean (reg : Registry) : ∀ f : Nat,
+    (∀ nodes s, plainSeq nodes = true → needSeq nodes ≤ f → SOK s → ROK (writeSeq reg f nodes s)) ∧
+    (∀ n s, plainNode n = true → needNode n ≤ f → SOK s → ROK (writeNode reg f n s)) ∧
+    (∀ arg all cs s, plainSeq all = true → plainSeq cs = true → needSeq cs + needSeq all ≤ f → SOK s →
+        ROK (switchNode reg f arg all cs s)) := by
+  intro f
+  induction f with
+  | zero =>
+    refine ⟨?_, ?_, ?_⟩
+    · intro nodes s _ h _; have := needSeq_pos nodes; omega
+    · intro n s _ h _; have := needNode_pos n; omega
+    · intro arg all cs s _ _ h _; have := needSeq_pos cs; omega
+  | succ f ih =>
+    obtain ⟨ihS, ihN, ihW⟩ := ih
+    refine ⟨?_, ?_, ?_⟩
+    · -- writeSeq
+      intro nodes s hp hf hs
+      cases nodes with
+      | nil => rw [writeSeq]; exact ok_ROK _ hs
+      | cons n rest =>
+        rw [writeSeq]
+        rw [needSeq] at hf
+        rw [plainSeq, Bool.and_eq_true] at hp
+        apply andThen_ROK
+        · exact ihN n s hp.1 (by omega) hs
+        · intro s1 hs1; exact ihS rest s1 hp.2 (by omega) hs1
+    · -- writeNode
+      intro n s hp hf hs
+      cases n with
+      | raw b => rw [writeNode]; exact write_ROK _ _ hs
+      | tpl path mods noesc pre suf =>
+        rw [writeNode]
+        simp only
+        have he := evalPrint_clean s.c path mods
+        generalize evalPrint s.c path mods = ev at he
+        obtain ⟨c2, o⟩ := ev
+        cases o with
+        | stop e => exact ⟨he.2 e rfl, he.1⟩
+        | text t => exact tplWrites_ROK _ _ _ _ _ he.1
+      | ctx cs =>
+        rw [writeNode]
+        simp only
+        have he := ctxNode_clean s.c cs hs
+        generalize ctxNode s.c cs = ev at he
+        obtain ⟨c', e⟩ := ev
+        exact ⟨he.2, he.1⟩
+      | counter cs =>
+        rw [writeNode]
+        simp only
+        have he := counterNode_clean s.c cs hs
+        generalize counterNode s.c cs = ev at he
+        obtain ⟨c', e⟩ := ev
+        exact ⟨he.2, he.1⟩
+      | condOK kk child =>
+        rw [writeNode]
+        simp only
+        rw [needNode] at hf
+        rw [plainNode] at hp
+        by_cases hemp : kk.cd.hlp.isEmpty = true
+        · simp only [hemp, if_true]; exact ok_ROK _ hs
+        · simp only [hemp, Bool.false_eq_true, if_false]
+          have he := evalCondOK_clean s.c kk hs
+          generalize evalCondOK s.c kk = ev at he
+          obtain ⟨c1, o⟩ := ev
+          cases o with
+          | stop e => exact fail_ROK _ _ he.1 he.2
+          | branch r pending =>
+            simp only
+            cases hc : (if r then child[0]? else child[1]?) with
+            | none => exact ⟨he.2, he.1⟩
+            | some n =>
+              have hn : n ∈ child := by
+                cases r with
+                | true => simp only [if_true] at hc; exact List.mem_of_getElem? hc
+                | false => simp only [Bool.false_eq_true, if_false] at hc; exact List.mem_of_getElem? hc
+              have h1 := need_mem child n hn
+              exact ihN n _ (plain_mem child n hn hp) (by omega) he.1
+      | cond cd child =>
+        rw [writeNode]
+        simp only
+        rw [needNode] at hf
+        rw [plainNode] at hp
+        have he := evalCond_clean s.c cd hs
+        generalize evalCond s.c cd = ev at he
+        obtain ⟨c1, o⟩ := ev
+        cases o with
+        | stop e => exact fail_ROK _ _ he.1 he.2
+        | branch r pending =>
+          simp only
+          cases hc : (if r then child[0]? else child[1]?) with
+          | none => exact ⟨he.2, he.1⟩
+          | some n =>
+            have hn : n ∈ child := by
+              cases r with
+              | true => simp only [if_true] at hc; exact List.mem_of_getElem? hc
+              | false => simp only [Bool.false_eq_true, if_false] at hc; exact List.mem_of_getElem? hc
+            have h1 := need_mem child n hn
+            exact ihN n _ (plain_mem child n hn hp) (by omega) he.1
+      | condTrue child =>
+        rw [writeNode]; rw [needNode] at hf; rw [plainNode] at hp
+        exact ihS child s hp (by omega) hs
+      | condFalse child =>
+        rw [writeNode]; rw [needNode] at hf; rw [plainNode] at hp
+        exact ihS child s hp (by omega) hs
+      | case_ kk child =>
+        rw [writeNode]; rw [needNode] at hf; rw [plainNode] at hp
+        exact ihS child s hp (by omega) hs
+      | default_ child =>
+        rw [writeNode]; rw [needNode] at hf; rw [plainNode] at hp
+        exact ihS child s hp (by omega) hs
+      | cloop ls child => rw [plainNode] at hp; cases hp
+      | rloop ls child =>
+        rw [writeNode]
+        simp only
+        rw [needNode] at hf
+        rw [plainNode] at hp
+        have hb := loopParts_body_need child
+        apply loopNode_ROK _ _ _ hs
+        intro s' _
+        apply rloopQB_ROK
+        · intro st hst
+          exact ihS _ st (loopParts_body_plain child hp) (by omega) hst
+        · exact else_OK reg f child hp ihN (by omega)
+      | brk d => rw [writeNode]; exact fail_ROK _ _ hs (by simp)
+      | lbrk d => rw [writeNode]; exact ok_ROK _ hs
+      | cont => rw [writeNode]; exact fail_ROK _ _ hs (by simp)
+      | switch arg child =>
+        rw [writeNode]; rw [needNode] at hf; rw [plainNode] at hp
+        exact ihW arg child child s hp hp (by omega) hs
+      | incl names => rw [plainNode] at hp; cases hp
+      | exit => rw [writeNode]; exact fail_ROK _ _ hs (by simp)
+      | jsonQ => rw [writeNode]; exact ok_ROK _ hs
+      | endJsonQ => rw [writeNode]; exact ok_ROK _ hs
+      | htmlE => rw [writeNode]; exact ok_ROK _ hs
+      | endHtmlE => rw [writeNode]; exact ok_ROK _ hs
+      | urlEnc => rw [writeNode]; exact ok_ROK _ hs
+      | endUrlEnc => rw [writeNode]; exact ok_ROK _ hs
+      | div => rw [writeNode]; exact fail_ROK _ _ hs (by simp)
+      | unknown => rw [writeNode]; exact fail_ROK _ _ hs (by simp)
+    · -- switchNode
+      intro arg all cs s hpa hpc hf hs
+      cases cs with
+      | nil =>
+        rw [switchNode]
+        rw [needSeq] at hf
+        cases hd : all.find? Node.isDefault with
+        | none => exact ok_ROK _ hs
+        | some d =>
+          have hm : d ∈ all := List.mem_of_find?_eq_some hd
+          have h1 := need_mem all d hm
+          exact ihN d s (plain_mem all d hm hpa) (by omega) hs
+      | cons ch rest =>
+        rw [switchNode]
+        rw [needSeq] at hf
+        rw [plainSeq, Bool.and_eq_true] at hpc
+        have ha := needSeq_pos all
+        cases hk : ch.asCase with
+        | none => exact ihW arg all rest s hpa hpc.2 (by omega) hs
+        | some k =>
+          simp only
+          have he := evalCase_clean s.c arg k hs
+          generalize evalCase s.c arg k = ev at he
+          obtain ⟨c1, o⟩ := ev
+          cases o with
+          | stop e => exact fail_ROK _ _ he.1 he.2
+          | branch r pend =>
+            simp only
+            cases r with
+            | true => simp only [if_true]; exact ihN ch _ hpc.1 (by omega) he.1
+            | false => simp only [Bool.false_eq_true, if_false]; exact ihW arg all rest _ hpa hpc.2 (by omega) he.1
 
 end Term
 end DyntplV
